@@ -579,7 +579,8 @@ Definition finalize (m : msg) (now : Z) : M unit :=
 Definition logout_counted (c : cfg) (m : msg) : M unit :=
   n <- lift (get_int T34 m) ;;
   w1 <- getw ;;
-  (if n =? nin w1 then set_next_num_in m ;;; persist_in m else ret tt) ;;;
+  (* try: count + journal  except Exception: log *)
+  (if n =? nin w1 then try_ (set_next_num_in m ;;; persist_in m) ;;; ret tt else ret tt) ;;;
   process_logout c m.
 
 (* the try body up to and including _check_seqnum_gaps.
